@@ -23,7 +23,7 @@ pub struct MsgCase {
     pub cap_extra: u16,
 }
 
-fn msg_strategy() -> BoxedStrategy<MsgCase> {
+pub fn msg_strategy() -> BoxedStrategy<MsgCase> {
     let ops = prop_oneof![
         5 => Just("READ"), 3 => Just("READDIR"), 3 => Just("READDIRPLUS"), 2 => Just("GETXATTR"), 2 => Just("LOOKUP"), 1 => Just("GETATTR"),
         1 => Just("READLINK"), 1 => Just("STATFS"), 1 => Just("CREATE"), 1 => Just("WRITE"), 1 => Just("IOCTL"), 1 => Just("UNLINK"), 1 => Just("LISTXATTR")
@@ -47,7 +47,7 @@ fn msg_strategy() -> BoxedStrategy<MsgCase> {
         .boxed()
 }
 
-fn run_msg(c: &MsgCase) -> Outcome {
+pub fn run_msg(c: &MsgCase) -> Outcome {
     let mut out = Outcome::default();
     let cs = &c.inner;
     let fs = Arc::new(MockFs::new(cs.res.clone()));
